@@ -742,8 +742,22 @@ fn spreads_of(ss: &crate::model::SelSet, out: &mut Vec<String>) {
 /// `#import` line is a comment for nitrogql but an error for the reference parser: it is read as a comment here too.
 pub fn unused_fragment_in_text(text: &str) -> bool {
     match crate::refparse::parse_exec(text) {
-        Ok(d) => has_unused_fragment(&d),
-        Err(_) => crate::refparse::parse_exec(&text.replace("#import", "# import")).map(|d| has_unused_fragment(&d)).unwrap_or(false),
+        Ok(d) => {
+            if std::env::var("NQV_DEBUG").is_ok() {
+                eprintln!("DEBUG parsed ok: ops {} frags {} unused {}", d.ops().count(), d.frags().count(), has_unused_fragment(&d));
+            }
+            has_unused_fragment(&d)
+        }
+        Err(_) => {
+            let r = crate::refparse::parse_exec(&text.replace("#import", "#_mport"));
+            if std::env::var("NQV_DEBUG").is_ok() {
+                match &r {
+                    Ok(d) => eprintln!("DEBUG retry ok: ops {} frags {}", d.ops().count(), d.frags().count()),
+                    Err(e) => eprintln!("DEBUG retry err {}:{} {}", e.line, e.col, e.msg),
+                }
+            }
+            r.map(|d| has_unused_fragment(&d)).unwrap_or(false)
+        }
     }
 }
 
